@@ -55,6 +55,7 @@ func runC01(c *Ctx) {
 	}
 	ruleSaltSlice(c, "COHERENT")
 	ruleSearch(c, "SEARCH", 2)
+	ruleSearchReturnsTried(c, "SEARCH")
 	ruleKeyBytes(c)
 	ruleUpdate(c)
 	ruleSnapshot(c)
@@ -1344,10 +1345,44 @@ func ruleSaltKeyed(c *Ctx) {
 			return
 		}
 		nGen++
-		i := -1
-		if f == mk {
-			i = paramIdx(call.Call.Args[0])
+		// the key is a parameter of the constructor — directly, or through the parameters of the helpers between the
+		// constructor and this call (saltGeneratorForSaltSize(size, secret)), judged at every call site of each helper
+		var toMk func(g *ssa.Function, v ssa.Value, d int) int
+		toMk = func(g *ssa.Function, v ssa.Value, d int) int {
+			if g == mk {
+				return paramIdx(v)
+			}
+			pa, isP := p.Resolve(v).(*ssa.Parameter)
+			if !isP || d > 3 {
+				return -1
+			}
+			j := -1
+			for k, q := range g.Params {
+				if q == pa {
+					j = k
+				}
+			}
+			res := -2
+			for _, s := range p.CallSitesOf(g) {
+				if p.IsTestSupport(s.Fn) {
+					continue
+				}
+				ci, isC := s.Ins.(ssa.CallInstruction)
+				if !isC || ci.Common().IsInvoke() || j < 0 || j >= len(ci.Common().Args) {
+					return -1
+				}
+				r := toMk(s.Fn, ci.Common().Args[j], d+1)
+				if r < 0 || (res != -2 && res != r) {
+					return -1
+				}
+				res = r
+			}
+			if res == -2 {
+				return -1
+			}
+			return res
 		}
+		i := toMk(f, call.Call.Args[0], 0)
 		c.CheckAt("KEYED", short(f)+":generator-key-is-a-constructor-parameter", call, i >= 0, "the marking generator is keyed by a value that is not a parameter of MakeCipherEntry ("+call.Call.Args[0].String()+")")
 		if i >= 0 {
 			ks = i
